@@ -12,6 +12,7 @@ pub mod c16;
 pub mod c17;
 pub mod c18;
 pub mod c19;
+pub mod realcomm;
 
 use crate::runner::PropDef;
 
